@@ -15,7 +15,9 @@ import os
 import common
 import impl_next
 import trainer_io
+import unicode_pool
 from props.C04 import collect
+from omen_level import training_bytes      # (one line feed / one byte order mark per file for utf-16)
 
 ID = "C03"
 TRUSTED = ["C03_reproduced is ONE theorem over ONE executable pipeline model (coq/theories/Pipeline.v: check_valid, multi-word pass, "
@@ -169,6 +171,10 @@ W_WORDS_ENC = {"utf-8": {5: ["весна", "осень", "école"],
                "cp1251": {5: ["весна", "осень"],
                           6: ["пароль", "привет"]},
                "latin-1": {5: ["école", "crème"], 6: ["garçon", "façade"]}}
+# alpha words that are not in Unicode normal form C (all letters without case): six Hangul conjoining jamo (NFC: two syllables),
+# five CJK compatibility ideographs (NFC: the unified ideographs)
+W_WORDS_ENC["utf-8"][6].append(unicode_pool.nfd(unicode_pool.U("d55c ae00")))
+W_WORDS_ENC["utf-8"][5].append(unicode_pool.U("f900 f901 f902 f903 f904"))
 W_DIGITS = {1: list("0123456789"), 2: ["12", "07", "99", "21", "00", "69"], 3: ["123", "007", "321", "999", "000"],
             4: ["1234", "4321", "0000", "1111", "7890"]}
 W_OTHER = {1: list("!#$%&*?._-"), 2: ["!!", "!?", "$$", "**", "..", "#$"]}
@@ -445,6 +451,8 @@ def process(ctx, st, code, name, rd, tree, passwords, enc, cov, replay, rle=None
                 continue
             dist["supported"] += 1
             supported.append(p)
+            if not unicode_pool.nfc_stable(p):
+                dist["supported_not_nfc"] = dist.get("supported_not_nfc", 0) + 1
             kinds = "".join(sorted(set(lab[0] for _, lab in sl)))
             dist["kinds"][kinds] = dist["kinds"].get(kinds, 0) + 1
             if p not in lang:
@@ -552,6 +560,16 @@ def run(ctx):
             for x in extra:
                 passwords += [x] * ctx.rng.choice([1, 2])
             dist["lists_with_unusual_blanks_or_format_chars"] = dist.get("lists_with_unusual_blanks_or_format_chars", 0) + 1
+        if i % 6 == 4 and i < nlists:
+            # text that is NOT in Unicode normal form C next to its NFC twin, as two different training passwords with counts
+            # of their own (harness/unicode_pool.py: base letter + combining mark, marks in non-canonical order, singletons
+            # such as U+212B / U+037E, Hangul conjoining jamo, CJK compatibility ideographs; q + U+0301 as the stable control).
+            # Only utf-8 / utf-16 can hold them; the generated part is cut so that the pipeline model runs on the same list.
+            enc = "utf-16" if (i // 6) % 2 == 1 else "utf-8"
+            passwords = trainer_io.flatten([e for e in entries if trainer_io.encodable(e[0], enc)][:5])
+            for x in unicode_pool.passwords(ctx.rng, 3 + (i // 6) % 2):
+                passwords += [x] * ctx.rng.choice([1, 1, 2, 3])
+            dist["lists_with_non_nfc_passwords"] = dist.get("lists_with_non_nfc_passwords", 0) + 1
         if enc == "latin-1" and i % 2 == 0:
             passwords += ["caf\u00e9\u00a0noir", "na\u00efve\u00ad1"]
         if i % 4 == 1:
@@ -569,8 +587,7 @@ def run(ctx):
         pump()
         fn = os.path.join(sc, "train_%d.txt" % i)
         with open(fn, "wb") as f:
-            for p in passwords:
-                f.write(p.encode(enc) + b"\n")
+            f.write(training_bytes(passwords, None, enc))
         name = "T%d" % i
         rc, out, err, tree = trainer_io.train_cli(code, fn, name, enc, coverage=cov, ngram=ngram)
         replay = {"passwords": passwords, "encoding": enc, "coverage": cov, "ngram": ngram}
@@ -661,7 +678,10 @@ def run(ctx):
     corr.extend(trainer_run_tie.obligations(("equalities", "instance")))
     rule = ("generated training lists (words, capitalised words, multi-words, digits, years, symbols, keyboard walks, context strings, "
             "spaces, Latin-1 / Cyrillic / Cherokee / Georgian letters and digraphs with a separate title case, three-word passwords followed by "
-            "their two-word tails, non-ASCII spaces / format / private-use characters, e-mails, websites, duplicates) in utf-8 / latin-1 / cp1251, coverage 0.3 / 0.6 / 1, n-gram 2-4; "
+            "their two-word tails, non-ASCII spaces / format / private-use characters, passwords that are NOT in Unicode normal form C - combining "
+            "marks after their base letter, two marks in non-canonical order, singletons (U+212B, U+037E ...), Hangul conjoining jamo, CJK "
+            "compatibility ideographs - next to their NFC twins as different passwords with counts of their own (utf-8 / utf-16; also as "
+            "alpha words of the large-count lists), e-mails, websites, duplicates) in utf-8 / latin-1 / cp1251, coverage 0.3 / 0.6 / 1, n-gram 2-4; "
             "PLUS training histories with large counts (--prefixcount lists and repeated lines, blocks or first-seen order different from "
             "count order): 2-5 values of ONE rules file - alpha words of one length, digits / symbols of one length, years, keyboard "
             "walks, context strings, capitalisation masks of one length, base structures; every family first in turn, with --prefixcount and with repeated lines, up to two more families per list - seen "
@@ -698,8 +718,7 @@ def replay(ctx, data):
     else:
         rle = None
         with open(fn, "wb") as f:
-            for p in inp["passwords"]:
-                f.write(p.encode(enc) + b"\n")
+            f.write(training_bytes(inp["passwords"], None, enc))
         distinct = list(dict.fromkeys(inp["passwords"]))
     rc, out, err, tree = trainer_io.train_cli(code, fn, "RP", enc, coverage=inp["coverage"], ngram=inp.get("ngram", 4),
                                               prefixcount=prefixcount, timeout=900)
